@@ -1,19 +1,97 @@
 ---------------------------- MODULE Gen_CcDisplay ----------------------------
 (* Byte-pair sequences for the caption driver with the visible page of every channel at the
-   visibility points and the caption events the specification predicts. *)
+   visibility points and the caption events the specification predicts.
+
+   Two ways to steer the generation (both leave the set of behaviours of CcDisplay untouched, they
+   only select among its steps):
+   * Mix    - a tuple of code classes; when not empty every step first draws a class from it (classes that
+              occur more often are drawn more often) and then takes a step of that class if one is enabled.
+              TLC's simulator picks uniformly among successor states, which would otherwise be dominated
+              by the many PACs.
+   * Bursts - after a control pair on field 1 the same pair is sent another b times (b drawn from the tuple Bursts):
+              runs of 2, 3, 4 identical pairs = one, two, two commands.  *)
 EXTENDS CcDisplay, Json
-VARIABLE hist
-gvars == <<vars, hist>>
-gview == <<ch, cur, last, lm, np>>
-GInit == Init /\ hist = <<>>
-\* the glyph cells of the displayed memory of channel c: <<row, col, code, fg, ul, it>>
-Glyphs(c) == LET S == {<<r, k>> \in (0..14) \X Cols : ch'[c].disp[r][k].u # 0 /\ ch'[c].disp[r][k].u # 32} IN
-             {<<x[1], x[2], ch'[c].disp[x[1]][x[2]].u, ch'[c].disp[x[1]][x[2]].fg,
-                IF ch'[c].disp[x[1]][x[2]].ul THEN 1 ELSE 0, IF ch'[c].disp[x[1]][x[2]].it THEN 1 ELSE 0>> : x \in S}
+CONSTANTS Mix, Bursts
+VARIABLES hist, want, burst
+gvars == <<vars, hist, want, burst>>
+gview == <<ch, cur, last, lm, np, burst>>
+\* finer: paths that reach the same state of the machine with another last pair are both continued (the decoder
+\* under test may tell them apart, e.g. in its memory of the last control pair)
+gview2 == <<ch, cur, last, lm, np, burst, lastAct>>
+GInit == Init /\ hist = <<>> /\ want = 0 /\ burst = 0
+\* the cells of a memory that are not transparent: <<row, col, code, fg, ul, it>>
+Cells(mem) == LET S == {<<r, k>> \in (0..14) \X Cols : mem[r][k].u # 0} IN
+              {<<x[1], x[2], mem[x[1]][x[2]].u, mem[x[1]][x[2]].fg,
+                 IF mem[x[1]][x[2]].ul THEN 1 ELSE 0, IF mem[x[1]][x[2]].it THEN 1 ELSE 0>> : x \in S}
+Glyphs(c) == Cells(ch'[c].disp)
 SetToSeq(S) == LET RECURSIVE F(_) F(T) == IF T = {} THEN <<>> ELSE LET x == CHOOSE y \in T : TRUE IN <<x>> \o F(T \ {x}) IN F(S)
-VisOut == [c \in vis' |-> SetToSeq(Glyphs(c))]
-GNext == np < MaxPairs /\ Next /\ hist' = Append(hist, [act |-> lastAct', vis |-> [c \in 1..4 |-> IF c \in vis' THEN SetToSeq(Glyphs(c)) ELSE <<-1>>],
-                                                        ev |-> [c \in 1..4 |-> c \in ev']])
+
+KindOf(act) == IF act.a = "Text" THEN "TEXT" ELSE IF act.a = "Null" THEN "NULL" ELSE act.code.k
+\* in a weighted walk a code for a channel that has no mode yet is a wasted step (ignored by the standard and the decoder)
+Useful(c, code) == ch[c].mode # "none" \/ code.k \in {"RCL", "RDC", "RU", "EOC"}
+TextUseful(f) == cur[f] # 0 /\ ch[cur[f]].mode # "none"
+\* the steps of CcDisplay of the classes KS that are enabled (and useful) in the current state, as records like lastAct
+Acts(KS) == {[a |-> "Ctrl", c |-> x[1], code |-> x[2]] :
+                x \in {y \in Chans \X {z \in Codes : z.k \in KS} : Useful(y[1], y[2]) /\ (IsRep(y[1], y[2]) \/ Legal(y[1], y[2]))}}
+            \cup (IF "TEXT" \in KS /\ K("TEXT")
+                  THEN {[a |-> "Text", f |-> x[1], c1 |-> x[2], c2 |-> x[3]] :
+                          x \in {y \in {FieldOf(c) : c \in Chans} \X Chars \X (Chars \cup {0}) :
+                                   TextUseful(y[1]) /\ cur[y[1]] = lm /\ ~ch[cur[y[1]]].fresh}}
+                  ELSE {})
+            \cup (IF "NULL" \in KS /\ K("NULL") THEN {[a |-> "Null", f |-> f] : f \in {FieldOf(c) : c \in Chans}} ELSE {})
+Apply(a) == CASE a.a = "Ctrl" -> Ctrl(a.c, a.code) [] a.a = "Text" -> Text(a.f, a.c1, a.c2) [] OTHER -> Null(a.f)
+RepeatOK == /\ lastAct.a = "Ctrl" /\ lastAct.code \in Codes
+            /\ (IsRep(lastAct.c, lastAct.code) \/ Legal(lastAct.c, lastAct.code))
+\* breadth-first search (Mix empty): every step of CcDisplay.  Weighted walk: ONE step, drawn at random from the enabled
+\* steps of the class that was drawn before (a walk then costs one successor per pair instead of several hundred).
+Step == IF Mix = <<>> THEN Next /\ UNCHANGED <<want, burst>>
+        ELSE IF burst > 0 /\ RepeatOK
+        THEN Ctrl(lastAct.c, lastAct.code) /\ burst' = burst - 1 /\ want' = want
+        ELSE /\ LET S == IF want = 0 THEN {} ELSE Acts({Mix[want]})
+                    T == IF S = {} THEN Acts(AllKinds) ELSE S
+                IN \E a \in {RandomElement(T)} : Apply(a)
+             /\ want' = RandomElement(1..Len(Mix))
+             /\ burst' = IF lastAct'.a = "Ctrl" /\ FieldOf(lastAct'.c) = 1 THEN Bursts[RandomElement(1..Len(Bursts))] ELSE 0
+\* (evidence only) where the channel the pair acts on stood before the pair: <<mode, roll-up depth, row, column>>
+At == LET c == IF lastAct'.a = "Ctrl" THEN lastAct'.c ELSE IF lastAct'.a = "Text" THEN cur[lastAct'.f] ELSE 0 IN
+      IF c = 0 THEN <<>> ELSE <<ch[c].mode, ch[c].roll, ch[c].row, ch[c].col>>
+GNext == np < MaxPairs /\ Step
+         /\ hist' = Append(hist, [act |-> lastAct', vis |-> [c \in 1..4 |-> IF c \in vis' THEN SetToSeq(Glyphs(c)) ELSE <<-1>>],
+                                  ev |-> [c \in 1..4 |-> c \in ev'], at |-> At])
 GSpec == GInit /\ [][GNext]_gvars
-Dump == np = MaxPairs => PrintT(<<"TR", ToJson(hist)>>)
+
+\* Probes.  Backspace, tab offsets, special characters, ENM and characters in pop-on mode are no visibility points:
+\* what they did shows at the next one.  A probe is a control pair that is a visibility point for channel c and changes
+\* nothing else: the command of the current mode again (RUx of the same depth, RDC in paint-on mode) and EOC in pop-on
+\* mode (the loaded caption becomes visible).  Its expected page is computed by the machine like any other step.
+ProbeCode(s) == CASE s.mode = "paint" -> [k |-> "RDC"] [] s.mode = "roll" -> [k |-> "RU", n |-> s.roll] [] OTHER -> [k |-> "EOC"]
+Probeable(chv, lastv, c) == /\ chv[c].mode # "none" /\ (chv[c].mode = "pop" => ~chv[c].stale)
+                            /\ ~(FieldOf(c) = 1 /\ lastv = <<c, ProbeCode(chv[c])>>)
+ProbeRec(chv, c) == [act |-> [a |-> "Ctrl", c |-> c, code |-> ProbeCode(chv[c])],
+                     vis |-> [d \in 1..4 |-> IF d = c THEN SetToSeq(Cells(Do(chv[c], ProbeCode(chv[c])).disp)) ELSE <<-1>>],
+                     ev |-> [d \in 1..4 |-> FALSE], probe |-> TRUE]
+\* the channel the last pair acted on (0: none)
+Touched == IF lastAct'.a = "Ctrl" THEN lastAct'.c ELSE IF lastAct'.a = "Text" THEN cur'[lastAct'.f] ELSE 0
+\* transition cover (breadth-first search): one behaviour per explored transition - the shortest path to its source state,
+\* the transition, a probe of the channel it touched
+TDump == PrintT(<<"TR", ToJson(IF Touched # 0 /\ Probeable(ch', last', Touched) THEN Append(hist', ProbeRec(ch', Touched)) ELSE hist')>>)
+\* random walks: the whole walk, then a probe of every channel
+RECURSIVE Probes(_, _)
+Probes(S, lastv) == IF S = {} THEN <<>>
+                    ELSE LET c == CHOOSE x \in S : \A y \in S : x <= y IN
+                         IF Probeable(ch, lastv, c) THEN <<ProbeRec(ch, c)>> \o Probes(S \ {c}, <<c, ProbeCode(ch[c])>>)
+                         ELSE Probes(S \ {c}, lastv)
+Dump == np = MaxPairs => PrintT(<<"TR", ToJson(hist \o Probes(Chans, last))>>)
+
+NoMix == <<>>
+NoBurst == <<0>>
+BurstsWalk == <<0, 0, 0, 1, 1, 1, 1, 2, 3>>
+\* broad walks: every class, characters more often than any single control class
+MixBroad == <<"TEXT", "TEXT", "TEXT", "TEXT", "TEXT", "PAC", "PAC", "PAC", "MID", "SPC", "RCL", "RDC", "RU", "RU", "EOC", "EOC", "EDM", "ENM",
+              "CR", "CR", "BS", "DER", "TO", "NULL">>
+\* the right edge: rows are filled, the cursor is moved back and forth, cells are erased
+MixEdge == <<"TEXT", "TEXT", "TEXT", "TEXT", "TEXT", "TEXT", "PAC", "PAC", "BS", "BS", "BS", "DER", "DER", "TO", "TO", "TO", "MID", "SPC", "RDC", "RCL",
+             "EOC", "EOC", "RU", "CR", "EDM", "ENM">>
+\* roll-up windows on every base row
+MixRoll == <<"TEXT", "TEXT", "TEXT", "TEXT", "PAC", "PAC", "PAC", "CR", "CR", "CR", "RU", "RU", "EDM", "RCL", "BS", "DER", "MID", "NULL">>
 =============================================================================
